@@ -47,15 +47,22 @@ def run_one(d, tier):
 def run(which, tier):
     dirs = sorted(glob.glob(os.path.join(VERIF, "seeded", "*")))
     out = []
+    todo = []
     for d in dirs:
         if not os.path.exists(os.path.join(d, "meta.json")):
             continue
         meta = json.load(open(os.path.join(d, "meta.json")))
         if which.lower() != "all" and meta["property"].upper() != which.upper():
             continue
-        r = run_one(d, tier)
-        out.append(r)
-        print("%-28s %s %-7s exit=%s %s" % (r["seed"], r["property"], r["status"], r.get("exit"), (r.get("output") or [""])[0][:110]))
+        todo.append(d)
+    # the obligations phase of each check is serialised by the build lock; the exploration phases run side by side
+    jobs = max(1, int(os.environ.get("VERIF_SELFTEST_JOBS", "6")))
+    from concurrent.futures import ThreadPoolExecutor
+    with ThreadPoolExecutor(max_workers=jobs) as ex:
+        for r in ex.map(lambda d: run_one(d, tier), todo):
+            out.append(r)
+            print("%-28s %s %-7s exit=%s %s" % (r["seed"], r["property"], r["status"], r.get("exit"), (r.get("output") or [""])[0][:110]),
+                  flush=True)
     # regenerate Gen/*.lean for the real repository
     import leanio
     with leanio.lock():
